@@ -66,6 +66,7 @@ macro "glob_tail" : tactic => `(tactic| (
     omega))
 
 theorem Inv.step_stwSingle {s s' : State} {t st idx : Nat} (h : Inv s) (ht : s.thr[t]? = some ⟨.stwL1, st, idx⟩)
+    (h1 : s.list.length = 1)
     (hs' : s' = { s with rt := 1 }.setPc t .opS) : Inv s' := by
   framed .opS
   glob_tail
